@@ -300,8 +300,11 @@ def selftest(ctx):
     # a manageable subset: every 5th case
     cases = cases[::5]
 
+    # (for perturbed table cells: without TLC's concrete leaf sets, which would expose the inconsistency as a tool error)
+    bare = [{k: v for k, v in c.items() if k != "pred"} for c in cases]
+
     def expect(name, spec_, kind, needle=None, cases_=None):
-        res = run_harness(ctx, binpath, spec_, cases_ or cases, ctx.seed, False, "self_" + name)
+        res = run_harness(ctx, binpath, spec_, cases_ or (bare if kind == "sensitivity" else cases), ctx.seed, False, "self_" + name)
         ms = [m for m in res["mismatches"] if m["kind"] == kind]
         if not ms:
             raise lib.ToolError("selftest: perturbation '%s' was not reported" % name)
